@@ -146,13 +146,13 @@ def holds (decimalMode : Bool) (inp : List Char) (prec : Int) (out : List Char) 
 /-! ## known findings -/
 
 /-- trigger of the known findings K-C08-1/2: a precision is applied (`0 < prec`) to a lexeme whose
-    exponent is within `length + 2` of the int64 range.  There the Go code adds digit counts to
+    exponent is within `length + 4` of the int64 range.  There the Go code adds digit counts to
     `origExp` with wrap-around, or leaves through the exponent-overflow exit after the precision branch
     has already incremented a digit in place. -/
 def trigExpNear (s : List Char) (prec : Int) : Bool :=
   decide (0 < prec) &&
     match parse s with
-    | some p => decide (2 ^ 63 ≤ p.exp.natAbs + s.length + 2)
+    | some p => decide (9223372036854775808 ≤ p.exp.natAbs + s.length + 4)
     | none => false
 
 end Verif.Spec.Num
